@@ -69,7 +69,7 @@ CHECKS = {
     "C19": dict(
         technique="TLA+ spec TagSyntax (documented tag grammar as recursive descent, three-valued class) evaluated by TLC on all token soups up to a bound and on every single-token edit of valid tags; real Build called on dynamic struct types carrying the tag text, and on a set of struct shapes, under recover + watchdog",
         text="TLC enumerates every sequence of tag tokens up to the bound over the 18-symbol alphabet and every insertion/deletion/replacement of one token in seeded valid tags, and classifies each as MustBuild, MustError (unknown token type, unclosed group or lookahead, modifier/capture/negation applied to nothing, empty alternative) or Either; Build must never panic or hang, must return an error for MustError and a parser for MustBuild, in the whole-tag, parser:\"...\", two-field and struct-field forms. Exhaustive over soups within the bound.",
-        note="Left recursion (also must-error) is decided by C08. Struct shapes are a fixed list of 39 types (a fatal crash of Build is attributed to the shape that was running). The tag lexer (text/scanner) is exercised only through the alphabet's concrete spellings.",
+        note="Left recursion (also must-error) is decided by C08. Struct shapes are a fixed list of 41 types (a fatal crash of Build is attributed to the shape that was running). The tag lexer (text/scanner) is exercised only through the alphabet's concrete spellings.",
         ref="4/C19, 3.9"),
     "C08": dict(
         technique="TLA+ spec Grammar (Nullable, LeftCalls, LeftRecursive) evaluated by TLC over the placement family F_lr; real Build verdict compared; accepted grammars parsed on all short inputs in a stack-limited child process",
